@@ -1,10 +1,13 @@
 package main
 
 import (
+	"crypto"
+
 	"context"
 	"crypto/x509"
 	"errors"
 	"fmt"
+	"github.com/notaryproject/notation-core-go/signature"
 	"net/http"
 	"time"
 
@@ -18,6 +21,49 @@ import (
 func init() {
 	register("C03", "Run.C03", func(t string, r *RNG, w *CaseWriter) { genChains("cs", t, r, w) })
 	register("C14", "Run.C14", func(t string, r *RNG, w *CaseWriter) { genChains("ts", t, r, w) })
+}
+
+var nSign int
+
+// poolKeyFor: the private key of the chain's leaf, if it is one of the pool keys
+func poolKeyFor(xs []*x509.Certificate) crypto.Signer {
+	if len(xs) == 0 {
+		return nil
+	}
+	type eq interface{ Equal(crypto.PublicKey) bool }
+	pub, ok := xs[0].PublicKey.(eq)
+	if !ok {
+		return nil
+	}
+	for _, n := range keyNames {
+		if k := Key(n); pub.Equal(k.Public()) {
+			return k
+		}
+	}
+	return nil
+}
+
+// trySign: 1 = a local signer could be made and Sign returned an envelope, 0 = an error somewhere
+func trySign(xs []*x509.Certificate, k crypto.Signer, at time.Time, fmtIdx int) (res int) {
+	defer func() {
+		if r := recover(); r != nil {
+			res = 2
+		}
+	}()
+	s, err := signature.NewLocalSigner(xs, k)
+	if err != nil {
+		return 0
+	}
+	env, err := signature.NewEnvelope(mediaTypes[fmtIdx])
+	if err != nil {
+		return 0
+	}
+	b, err := env.Sign(&signature.SignRequest{Payload: signature.Payload{ContentType: payloadCT, Content: []byte(`{"k":1}`)}, Signer: s,
+		SigningTime: at, SigningScheme: signature.SigningSchemeX509})
+	if err != nil || len(b) == 0 {
+		return 0
+	}
+	return 1
 }
 
 type failRT struct{}
@@ -99,6 +145,20 @@ func genChains(purp string, tier string, rng *RNG, w *CaseWriter) {
 		}
 		term := fmt.Sprintf("(mk @ID@ %s %s %s %s %s %s)", chainTerm(xs), sf, ss, stTerm, cB(impl), cZ(int64(rev)))
 		desc := map[string]any{"purpose": purp, "len": len(xs), "mods": labels, "impl_accepts": impl, "impl_rev": rev}
+		if purp == "cs" {
+			// the same chain through the signing path: a local signer for the leaf's key signs at the signing time
+			// (whole seconds only: Sign truncates); it must succeed exactly when the chain is valid at that time
+			sign, signAt := -1, baseTime
+			if st != nil {
+				signAt = *st
+			}
+			if k := poolKeyFor(xs); k != nil && signAt.Nanosecond() == 0 {
+				nSign++
+				sign = trySign(xs, k, signAt, nSign%2)
+			}
+			term = fmt.Sprintf("(mk @ID@ %s %s %s %s %s %s %s %s)", chainTerm(xs), sf, ss, stTerm, cB(impl), cZ(int64(rev)), cZ(int64(sign)), cZ(signAt.UnixNano()))
+			desc["impl_sign"] = sign
+		}
 		if st != nil {
 			desc["st_unix_nano"] = st.UnixNano()
 		}
@@ -187,8 +247,8 @@ func genChains(purp string, tier string, rng *RNG, w *CaseWriter) {
 		}
 		// pairs (benign variation, violation)
 		type pr struct {
-			b, v     chainMod
-			pb, pv   int
+			b, v   chainMod
+			pb, pv int
 		}
 		var pairs []pr
 		for _, bm := range benign {
